@@ -32,7 +32,11 @@ type frame struct {
 }
 
 func (p *Path) unsupported(format string, args ...interface{}) {
-	panic(stopPath{kind: "unsupported", msg: fmt.Sprintf(format, args...)})
+	msg := fmt.Sprintf(format, args...)
+	if p.curIns != nil && !strings.Contains(msg, " at ") {
+		msg += " at " + p.posOf(p.curIns)
+	}
+	panic(stopPath{kind: "unsupported", msg: msg})
 }
 
 func (p *Path) posOf(i ssa.Instruction) string {
@@ -264,6 +268,11 @@ func (p *Path) callValue(fv Value, args []Value, site ssa.Instruction) Value {
 }
 
 func (p *Path) callFn(fn *ssa.Function, args []Value, free []Value, site ssa.Instruction) Value {
+	if p.initMode && fn.Name() == "init" && fn.Pkg != nil && !p.E.isInitPkg(fn.Pkg) {
+		// initialisers of imported packages are not executed (their globals are
+		// either unused or poisoned on first use)
+		return nil
+	}
 	key := fnKey(fn)
 	if in, ok := p.E.lookupIntrinsic(fn, key); ok {
 		p.noteStub(key)
@@ -344,6 +353,7 @@ func (p *Path) exec(fn *ssa.Function, args []Value, free []Value, site ssa.Instr
 				v := p.get(fr, in.X)
 				p.goPanicAt(in, "explicit panic: %s", p.panicText(v))
 			default:
+				p.curIns = ins
 				p.step(fr, ins)
 			}
 		}
@@ -893,4 +903,14 @@ func (e *Engine) isTargetPath(path string) bool {
 		}
 	}
 	return false
+}
+
+func (e *Engine) isInitPkg(pkg *ssa.Package) bool {
+	for _, ip := range e.InitPkgs {
+		if ip == pkg {
+			return true
+		}
+	}
+	// goag's own packages are initialised (their package-level values are plain)
+	return strings.HasPrefix(pkg.Pkg.Path(), "github.com/vkd/goag")
 }
